@@ -292,6 +292,34 @@ def _evaluate(case, env, out):
                     break
             with open(fp, "wb") as fh:
                 fh.write(original)
+        # (6) the edit is undone / redone in a LATER session (history saved and reloaded): same bytes as in the same session
+        k6 = next((i for i in range(len(lines)) if i not in cookie_idx and not (i == 0 and case["declared"] == "bom")), None)
+        if k6 is not None and len(lines) >= 2:
+            project.close()
+            project = Project(root, save_history=True)
+            res6 = project.get_file("f.py")
+            t6 = res6.read().split("\n")
+            new_lines = list(lines)
+            new_lines[k6] = case["repl"].replace("coding", "c_ding")
+            t6[k6] = new_lines[k6]
+            project.do(ch.ChangeContents(res6, "\n".join(t6)))
+            edited = _read(fp)
+            project.close()
+            project = Project(root, save_history=True)
+            out.evals += 1
+            try:
+                project.history.undo()
+                got = _read(fp)
+                if got != original:
+                    out.violation("C16:undo_in_later_session", _bd(original, got))
+                else:
+                    project.history.redo()
+                    got = _read(fp)
+                    if got != edited:
+                        out.violation("C16:redo_in_later_session", _bd(edited, got))
+                    project.history.undo()
+            except Exception as e:
+                out.violation("C16:undo_in_later_session_raised:" + type(e).__name__, repr(e)[:200])
         if nontrivial:
             out.nontrivial.add("c")
     finally:
